@@ -37,6 +37,7 @@ def scenarios(tier):
     sc.append(('an_ns_ptr', dict(q=['b'], an=[('NS', 'a', ['b'])], ns=[('PTR', 'd', ['c'])], ar=[], opt=None)))
     sc.append(('mx_srv', dict(q=['a'], an=[('MX', 'a', ['b']), ('SRV', 'b', ['a'])], ns=[], ar=[('A', 'b', [])], opt=None)))
     sc.append(('opt_only', dict(q=[], an=[], ns=[], ar=[], opt=[])))
+    sc.append(('opt_data', dict(q=['a'], an=[], ns=[], ar=[], opt=[3])))     # the message ends inside an EDNS option payload
     sc.append(('opt_and_ar', dict(q=['a'], an=[], ns=[], ar=[('A', 'a', []), ('TXT', 'b', [])], opt=[2, 0])))
     sc.append(('maxname', dict(q=['m'], an=[('NS', 'm', ['n'])], ns=[], ar=[], opt=None)))   # 255-octet names
     sc.append(('far', dict(q=['a'], an=[('NULLBIG', 'd', []), ('NS', 'b', ['c']), ('NS', 'c', ['b']), ('MX', 'b', ['b'])], ns=[], ar=[], opt=None)))
